@@ -100,6 +100,100 @@ def funcs(sp, rng):
     yield 'InfimalConvolution(L2NormSquared,L1Norm)', lambda: S.InfimalConvolution(S.L2NormSquared(sp), S.L1Norm(sp)), ('novalue', 'noprox')
 
 
+# ---- seeded compositions of the derived-functional wrappers ---------------------------------------------------
+# Each wrapper maps (functional, reference value function, tags) -> the same triple; the reference is built from the
+# mathematical meaning of the wrapper and the *base* functional's value only, so it is independent of how the wrapper
+# classes store and flatten their state (scalar folding in Operator{Left,Right}ScalarMult, nested translations, ...).
+
+def _bases(sp, rng):
+    yield 'L1', lambda: S.L1Norm(sp), ()
+    yield 'L2', lambda: S.L2Norm(sp), ()
+    yield 'L2sq', lambda: S.L2NormSquared(sp), ('smooth',)
+    yield 'Huber', lambda: S.Huber(sp, 0.3), ('c1',)
+    yield 'Box', lambda: S.IndicatorBox(sp, -0.5, 0.8), ('indicator',)
+    yield 'QuadV', lambda: S.QuadraticForm(vector=rand_el(sp, rng), constant=0.5), ('smooth',)
+
+
+def _wrappers(sp, rng):
+    def left(a):
+        return ('%g*' % a, lambda f: a * f, lambda r: (lambda x: a * r(x)), lambda t: t)
+
+    def right(b):
+        return ('*%g' % b, lambda f: f * b, lambda r: (lambda x: r(b * x)), lambda t: t)
+
+    def transl():
+        g = rand_el(sp, rng)
+        return ('T', lambda f: f.translated(g), lambda r: (lambda x: r(x - g)), lambda t: t)
+
+    def plus(c):
+        return ('+%g' % c, lambda f: f + c, lambda r: (lambda x: r(x) + c), lambda t: tuple(u for u in t if u != 'indicator'))
+
+    def qp(q, lin):
+        ll = rand_el(sp, rng) if lin else None
+        return ('Q%g%s' % (q, 'l' if lin else ''), lambda f: S.FunctionalQuadraticPerturb(f, quadratic_coeff=q, linear_term=ll, constant=0.25),
+                lambda r: (lambda x: r(x) + q * x.inner(x) + (x.inner(ll) if ll is not None else 0.0) + 0.25),
+                lambda t: tuple(u for u in t if u != 'indicator'))
+
+    def minus_scaled(a):
+        # f - a*g with g = 0.5 f  ==  (1 - a/2) f, written the way users write differences of scaled functionals
+        return ('-(%g*-)' % a, lambda f: f - a * (0.5 * f), lambda r: (lambda x: (1 - 0.5 * a) * r(x)), lambda t: t)
+    return [lambda: left(0.25), lambda: left(3.0), lambda: left(1.0), lambda: right(2.0), lambda: right(1.5), lambda: right(-0.5),
+            lambda: right(1.0), transl, lambda: plus(1.25), lambda: qp(0.7, True), lambda: qp(0.0, True), lambda: qp(0.4, False),
+            lambda: minus_scaled(0.5)]
+
+
+PAIR_KINDS = (0, 1, 3, 5, 7, 8, 9, 10, 12)   # indices into _wrappers: every wrapper class, both scalings with two factors
+
+
+def composed(sp, rng, n, depth=(2, 3), pairs=()):
+    """``n`` seeded compositions (depth 2..3) of scaling / translation / constant / quadratic-perturbation wrappers
+    over base functionals, preceded by the ordered wrapper pairs ``pairs`` (indices into PAIR_KINDS x PAIR_KINDS), which
+    are enumerated, not drawn.  Yields (name, thunk, tags, ref) with ``ref(x)`` the independent value model."""
+    bases = list(_bases(sp, rng))
+    if util.weighting_tag(sp).startswith('array'):
+        # Huber on array-weighted spaces fails in its own evaluation (listed finding on the plain recipe)
+        bases = [b for b in bases if b[0] != 'Huber']
+    plan = [(cls, k) for k in pairs for cls in ('pair-smooth', 'pair-kinked')] + [('random', None)] * n
+    for how, k in plan:
+        ws = _wrappers(sp, rng)
+        if how != 'random':
+            # one base with a Lipschitz gradient and one without, per ordered wrapper pair
+            pool = [b for b in bases if (b[0] in ('L2sq', 'Huber', 'QuadV')) == (how == 'pair-smooth')]
+            bname, bthunk, tags = pool[int(rng.integers(len(pool)))]
+            chain = [ws[PAIR_KINDS[k // len(PAIR_KINDS)]](), ws[PAIR_KINDS[k % len(PAIR_KINDS)]]()]
+        else:
+            bname, bthunk, tags = bases[int(rng.integers(len(bases)))]
+            d = int(rng.integers(depth[0], depth[1] + 1))
+            chain = [ws[int(rng.integers(len(ws)))]() for _k in range(d)]
+        if 'indicator' in tags:
+            # inf - inf has no meaning: no differences of extended-valued functionals
+            chain = [w if not w[0].startswith('-(') else ws[1]() for w in chain]
+        name = bname
+        for w in chain:
+            name = '(%s)%s' % (name, w[0]) if not w[0].endswith('*') else '%s(%s)' % (w[0], name)
+            tags = w[3](tags)
+
+        cache = {}
+
+        def base(bthunk=bthunk, cache=cache):
+            if 'f' not in cache:
+                cache['f'] = bthunk()
+            return cache['f']
+
+        def thunk(base=base, chain=chain):
+            f = base()
+            for w in chain:
+                f = w[1](f)
+            return f
+
+        def ref(x, base=base, chain=chain):
+            r = base()
+            for w in chain:
+                r = w[2](r)
+            return r(x)
+        yield 'composed:' + name, thunk, tuple(tags) + ('composed', 'base:' + bname), ref
+
+
 def pfuncs(sp, rng):
     g = lambda: rand_el(sp, rng)
     yield 'GroupL1Norm', lambda: S.GroupL1Norm(sp), ()
@@ -129,6 +223,23 @@ def nuclear(rng):
     yield 'NuclearNorm(1,inf)', NN, lambda: S.NuclearNorm(NN, outer_exp=1, singular_vector_exp=np.inf), ()
     yield 'NuclearNorm(1,2).convex_conj', NN, lambda: S.NuclearNorm(NN, outer_exp=1, singular_vector_exp=2).convex_conj, ('indicator',)
     yield 'left-scaled(NuclearNorm)', NN, lambda: 2.5 * S.NuclearNorm(NN), ()
+
+
+def composed_component(fname, tags):
+    """Seed-independent component name for a composed recipe: the base functional only."""
+    for t in tags:
+        if t.startswith('base:'):
+            return 'composed(%s)' % t[5:]
+    return fname
+
+
+def all_composed(rng, thorough=False):
+    """Yield (fname, sname, space, thunk, tags, ref) for seeded wrapper compositions on every non-product space."""
+    sps = list(spaces())
+    npairs = len(PAIR_KINDS) ** 2
+    for j, (sname, sp) in enumerate(sps):
+        for fname, thunk, tags, ref in composed(sp, rng, 14 if thorough else 5, pairs=[k for k in range(npairs) if k % len(sps) == j]):
+            yield fname, sname, sp, thunk, tags, ref
 
 
 def all_functionals(rng, thorough=False):
